@@ -674,8 +674,15 @@ class Binary(Expression):
                 if long is None:
                     long = l_long
             if self.right.small_constant:
+                value = int(self.right.value)
+                # the kernel refuses these, better tell where it happens
+                if self.operator in (Opcode.DIV, Opcode.MOD) and value == 0:
+                    raise AssembleError("division by constant zero")
+                if (self.operator in (Opcode.LSH, Opcode.RSH, Opcode.ARSH)
+                        and not 0 <= value < (64 if long else 32)):
+                    raise AssembleError(f"cannot shift by {value}")
                 self.ebpf.append(self.operator + Opcode.LONG * long,
-                                 dst, 0, 0, int(self.right.value))
+                                 dst, 0, 0, value)
             else:
                 with self.right.calculate(None, long) as (src, r_long):
                     self.ebpf.append(
